@@ -90,6 +90,38 @@ Lemma leaving_rstep : forall cfg s s', Inv1 s -> leaving s -> rstep cfg s = Some
 Proof.
   intros cfg s s' [L S0 S1 Q1 Q2 X1 X2 X3 X4 A1 A2 A3 E W K V B] Hlv H.
   unfold rstep, enter_clean in H. unfold leaving, holders in *.
-  destruct (runner s) eqn:Er; cbn in H; split_step H; try inv_some; cbn.
+  destruct (runner s) eqn:Er; cbn in H; split_step H; try inv_some; cbn; rewrite ?Er.
   all: try solve [ destruct Hlv as [[? ?]|(? & ? & ?)]; [left|right]; repeat split; cbn in *; fwd; try lia; try congruence ].
-  all: idtac "REMAINING". Show.
+Qed.
+
+Lemma leaving_step : forall cfg s l s', Inv1 s -> leaving s -> step repaired cfg s l = Some s' -> leaving s'.
+Proof.
+  intros cfg s [p|] s' I Hl H; cbn in H; [eapply leaving_cstep|eapply leaving_rstep]; eauto.
+Qed.
+
+(* once an exit request is in force, every execution — whatever the scheduler does, whoever else calls Stop or Run —
+   is at most mu steps long *)
+Lemma leaving_bounded : forall cfg ls s s',
+  Inv cfg s -> leaving s -> exec repaired cfg s ls = Some s' ->
+  List.length ls + mu cfg s' <= mu cfg s /\ leaving s' /\ Inv cfg s'.
+Proof.
+  intros cfg. induction ls as [|l r IH]; intros s s' I Hl H; cbn in H.
+  - injection H as <-. split; [cbn [List.length]; lia|split; assumption].
+  - destruct (step repaired cfg s l) as [s1|] eqn:Es; [|discriminate].
+    assert (I1 : Inv cfg s1) by (destruct I as [Ia Ib]; split; [eapply inv1_step|eapply inv2_step]; eauto).
+    assert (Hl1 : leaving s1) by (eapply leaving_step; [apply I|exact Hl|exact Es]).
+    destruct (IH s1 s' I1 Hl1 H) as (Hb & Hl' & I').
+    destruct (mu_step cfg s l s1 I Es) as [Hm|Hm].
+    + exfalso. eapply leaving_no_miss; [apply I|exact Hl|exact Hm].
+    + split; [cbn [List.length]; lia|split; assumption].
+Qed.
+
+(* a Stop call that has got past its request (it is unlocking, waiting or has returned) has put the request in force *)
+Lemma past_request_leaving : forall s,
+  Inv1 s -> 0 < cnt s SUnl + cnt s SWait + cnt s SRet -> leaving s.
+Proof.
+  intros s I H. left. split; [apply (iW s I H)|].
+  destruct (Nat.eq_dec (cnt s SSend) 0) as [e|e]; [exact e|]. assert (Hs : 0 < cnt s SSend) by lia.
+  pose proof (iV s I Hs). lia.
+Qed.
+
